@@ -203,6 +203,7 @@ func checkC20(p *Prog, c *Check) {
 	}
 
 	c20Producer(p, c)
+	c20NonNil(p, c)
 	// the membership lookup every key passes through before it is published
 	linearSearchRule(p, c, "C20-R4", "keyper/database.GetKeyperIndex", "$p1")
 }
